@@ -373,6 +373,19 @@ def Val.distinctHere : Val → Bool
   | .dict ks vs => distinctKeys (Val.pyKeys ks) && ks.length == vs.length
   | _ => true
 
+def Val.isFset : Val → Bool | .fset _ => true | _ => false
+/-- a set display none of whose elements contains a `frozenset(...)` call -/
+def Val.setCallFree : Val → Bool
+  | .set xs => Val.allSubL (fun x => !x.isFset) xs
+  | _ => true
+
+/-- value side of fragment F2: no `frozenset(...)` call anywhere inside a *set display*.  (`convert.build_set` pastes
+the element bindings with their original origins; the call moves to a new CFG node, which hides the elements
+evaluated before it, and views choosing a hidden element are dropped by the `HasCombination` re-filter of
+`compute_one_match`: `x: set[frozenset[int]] = {1, frozenset()}` is not reported — a known finding; `abs` does not
+describe visibility.) -/
+def Val.inF2 (v : Val) : Bool := v.allSub Val.setCallFree
+
 /-- no display anywhere in the expression has two keys CPython would merge: the expression denotes exactly the
 listed elements -/
 def Val.pyDistinct (v : Val) : Bool := v.allSub Val.distinctHere
